@@ -606,6 +606,27 @@ func checkOperationTable(c *Ctx, g *grammarInfo, tm *tokenMap, gramSet map[int64
 		tokVals = append(tokVals, v)
 	}
 	sort.Slice(tokVals, func(i, j int) bool { return tokVals[i] < tokVals[j] })
+	// every return of a value (nil error) after both operands were evaluated
+	var valueReturns []*ast.ReturnStmt
+	walkNoLit(be.fn.Body, func(n ast.Node) bool {
+		if ret, ok := n.(*ast.ReturnStmt); ok && len(ret.Results) == 2 && isNilExpr(info, ret.Results[1]) && ret.Pos() > be.evalR.End() {
+			valueReturns = append(valueReturns, ret)
+		}
+		return true
+	})
+	ef := w.ent(be.fn)
+	var opTag ast.Expr = be.sw.Tag
+	exclCache := map[[2]int64]bool{}
+	excluded := func(ret *ast.ReturnStmt, opv int64) bool {
+		k := [2]int64{int64(ret.Pos()), opv}
+		if v, ok := exclCache[k]; ok {
+			return v
+		}
+		at := site{pos: ret.Pos(), anc: ret}
+		ok, _ := ef.Prove(ret, Not{ef.intEq(keyCtx{e: ef, s: &at}, opTag, opv)})
+		exclCache[k] = ok
+		return ok
+	}
 	for _, tv := range tokVals {
 		tok := gramSet[tv]
 		sp, ok := g.spelling(tok)
@@ -622,35 +643,37 @@ func checkOperationTable(c *Ctx, g *grammarInfo, tm *tokenMap, gramSet map[int64
 		if !mapped {
 			continue // reported by R1
 		}
-		cs := caseByValue[opv]
-		if cs == nil {
-			c.ob("C02.R2", "operator '"+sp+"'", w.Pos(be.sw.Pos()), false, "operator '"+sp+"' ("+tm.valName[opv]+") has no case in the evaluator: it always fails with 'unknown operator'")
-			continue
-		}
-		// collect the value-returning returns of the case
+		// the value-returning returns that the path facts do not exclude for this operator, wherever they stand
+		// (operator-major switch with type tests inside, or type-major branches with operator switches inside)
 		got := map[string]string{} // alternative -> description
 		var bad []string
-		for _, st := range cs.body {
-			walkNoLit(st, func(n ast.Node) bool {
-				ret, ok := n.(*ast.ReturnStmt)
-				if !ok || len(ret.Results) != 2 || !isNilExpr(info, ret.Results[1]) {
-					return true
+		cs := caseByValue[opv]
+		if cs == nil {
+			cs = &opCase{value: opv, name: tm.valName[opv], pos: be.sw.Pos()}
+		}
+		nfeasible := 0
+		for _, ret := range valueReturns {
+			if excluded(ret, opv) {
+				continue
+			}
+			nfeasible++
+			desc, alt := describeResult(w, be, ret.Results[0])
+			ga := guardAlternative(w, be, ret)
+			switch {
+			case ga == "":
+				bad = append(bad, w.Pos(ret.Pos())+": returns "+desc+" without guards establishing one common alternative of both operands")
+			case alt != "" && alt != ga:
+				bad = append(bad, w.Pos(ret.Pos())+": computes on ."+alt+" under guards that establish ."+ga)
+			default:
+				if prev, dup := got[ga]; dup && prev != desc {
+					bad = append(bad, w.Pos(ret.Pos())+": two different results for "+ga+" operands: "+prev+" and "+desc)
 				}
-				desc, alt := describeResult(w, be, ret.Results[0])
-				ga := guardAlternative(w, be, ret)
-				switch {
-				case ga == "":
-					bad = append(bad, w.Pos(ret.Pos())+": returns "+desc+" without guards establishing one common alternative of both operands")
-				case alt != "" && alt != ga:
-					bad = append(bad, w.Pos(ret.Pos())+": computes on ."+alt+" under guards that establish ."+ga)
-				default:
-					if prev, dup := got[ga]; dup && prev != desc {
-						bad = append(bad, w.Pos(ret.Pos())+": two different results for "+ga+" operands: "+prev+" and "+desc)
-					}
-					got[ga] = desc
-				}
-				return true
-			})
+				got[ga] = desc
+			}
+		}
+		if nfeasible == 0 {
+			c.ob("C02.R2", "operator '"+sp+"'", w.Pos(be.sw.Pos()), false, "operator '"+sp+"' ("+tm.valName[opv]+") has no case in the evaluator: it always fails with 'unknown operator'")
+			continue
 		}
 		want := map[string]string{}
 		if spec.num != "" {
@@ -721,16 +744,34 @@ func checkBuilderOperator(c *Ctx, tm *tokenMap) {
 				// the literal sits in a callback literal whose parameter is r; l is a variable assigned in another callback pushed after it
 				lit1 := w.EnclosingOrSelf(cl)
 				if lit1 != nil && lit1.Lit != nil && len(lit1.Lit.Type.Params.List) == 1 {
-					rid, lid := identOf(r), identOf(l)
-					if rid != nil && lid != nil && info.Uses[rid] == info.Defs[lit1.Lit.Type.Params.List[0].Names[0]] {
-						// find the other callback assigning lid
-						lobj := info.Uses[lid]
+					// the storage the left operand is read from: a captured local, or a field of a captured local
+					storage := func(e ast.Expr) string {
+						e = unparen(e)
+						if id := identOf(e); id != nil {
+							if o := info.Uses[id]; o != nil {
+								return "v" + itoa(int(o.Pos()))
+							}
+						}
+						if se, ok := e.(*ast.SelectorExpr); ok {
+							if id := identOf(se.X); id != nil {
+								if o := info.Uses[id]; o != nil {
+									if sel, ok := info.Selections[se]; ok && sel.Kind() == types.FieldVal {
+										return "v" + itoa(int(o.Pos())) + "." + sel.Obj().Name()
+									}
+								}
+							}
+						}
+						return ""
+					}
+					rid, lkey := identOf(r), storage(l)
+					if rid != nil && lkey != "" && info.Uses[rid] == info.Defs[lit1.Lit.Type.Params.List[0].Names[0]] {
+						// find the other callback assigning that storage
 						var lit2 *ast.FuncLit
 						ast.Inspect(f.Body, func(m ast.Node) bool {
 							if fl, ok := m.(*ast.FuncLit); ok && fl != lit1.Lit {
 								ast.Inspect(fl.Body, func(a ast.Node) bool {
 									if as, ok := a.(*ast.AssignStmt); ok && len(as.Lhs) == 1 {
-										if id := identOf(as.Lhs[0]); id != nil && info.Uses[id] == lobj {
+										if storage(as.Lhs[0]) == lkey {
 											if pid := identOf(as.Rhs[0]); pid != nil && len(fl.Type.Params.List) == 1 && info.Uses[pid] == info.Defs[fl.Type.Params.List[0].Names[0]] {
 												lit2 = fl
 											}
